@@ -33,12 +33,12 @@ CLAIMS["C05"] = dict(
           "rejected (R05o), gap-array zeroing from the old count to the new (R05s), single use of a va_list (R05t), no fclose "
           "of a possibly-NULL stream (R05u), fixed-size locals filled under a counter are large enough for the largest index the "
           "counter reaches (R05w), the label copied into a Clustal/MSF line is not measured with strlen when the line was sized from a "
-          "capped strnlen (R05x = R15l). Each rule has must-fire / must-stay-silent controls or a floor of confirmed instances."),
+          "capped strnlen (R05x = R15l), no local pointer is released twice on a path without an assignment in between (R05y = R16j). Each rule has must-fire / must-stay-silent controls or a floor of confirmed instances."),
     note=("Clauses only: termination, index safety inside the DP and bit-parallel kernels, integer overflow and malloc "
           "failure paths are NOT decided (goto-analyzer could not bound the kernels; DESIGN section 1). Assumes C-locale "
           "ctype semantics and 8-bit signed plain char."),
     technique="AST/CFG dataflow rules: byte-domain index evaluation, must-assign, error-status discipline, typestate on out-parameters, call-graph reachability",
-    design_ref="DESIGN.md section 3, C05 (R05a-R05x)")
+    design_ref="DESIGN.md section 3, C05 (R05a-R05y)")
 
 CLAIMS["C01"] = dict(
     text=("Decides four structural clauses that the anchors of the property name: (R01a) on every CFG path of kalign_run / "
@@ -98,11 +98,12 @@ CLAIMS["C06"] = dict(
           "write_msa_msf formats into a line is a literal, a sequence name, the strftime date or the base name from tlfilename, "
           "so that no caller-supplied path can put the reader's '//' divider into the header; every path to a call of kalign_write_msa "
           "runs something that can set ALN_STATUS_FINAL first (R06k: kalignfmt had none and could not write - F28); a reader that grows a "
-          "record keeps the gap counts already counted (R06l = R05s)."),
+          "record keeps the gap counts already counted (R06l = R05s); a scanf scanset used for a name accepts letters, digits and _ . | - "
+          "(R06m); the output lines are ordered by block, then row (R06n = R15m)."),
     note=("One clause family only: equality of the re-read alignment (block arithmetic at multiples of 60, name "
           "extraction over all names) is NOT decided - it needs the loop semantics over run-time widths."),
     technique="reader/writer token-set agreement from string literals, bounded-copy rule, prefix-comparison rule",
-    design_ref="DESIGN.md section 3, C06 (R06a-R06l)")
+    design_ref="DESIGN.md section 3, C06 (R06a-R06n)")
 
 CLAIMS["C15"] = dict(
     text=("Decides agreement inside write_msa_msf between header and body: the integer printed after 'MSF:' and every "
@@ -116,11 +117,12 @@ CLAIMS["C15"] = dict(
           "label of a block row: the copy loop ends at strnlen/strlen of the name or at its NUL byte only (exit tests "
           "evaluated for all 256 byte values), so it is the string the header lines print, and it is measured no more generously than "
           "the strnlen(name, cap) the line was sized from; neither GCG checksum function accumulates under an OpenMP reduction "
-          "without reducing the combined value again."),
+          "without reducing the combined value again; the comparator of the output lines compares block and row key separately (or packs "
+          "them with a factor >= 2^31), and no line is written or skipped depending on the line buffer's capacity."),
     note=("Wrapping at 60, presence of every sequence in every block and the numerical GCG formula are NOT decided; a "
           "restructured emission loop yields exit 2 (no verdict), not a pass."),
     technique="reaching-definition agreement between header fields and emission bound; two-state evaluation of the type predicate",
-    design_ref="DESIGN.md section 3, C15 (R15a-R15l)")
+    design_ref="DESIGN.md section 3, C15 (R15a-R15n)")
 
 CLAIMS["C02"] = dict(
     text=("Decides the argument 'structured fork-join + non-interfering siblings + no thread-identity/-count dataflow => "
@@ -186,11 +188,12 @@ CLAIMS["C13"] = dict(
           "that letter, three quarters of the shared letter that pulls hardest towards nucleotide) is evaluated exactly; the "
           "larger total selects the matching biotype; msa.biotype is assigned a kind only by detect_alphabet; the kind gates the type; "
           "every increment of the histogram by an input character is executed for all 52 letters and under no budget that the counting "
-          "itself uses up (R13g); merge_msa adds the histograms and re-runs the detection after the append (R13h)."),
+          "itself uses up (R13g); merge_msa adds the histograms and re-runs the detection after the append (R13h); no variable narrower than the counters "
+          "receives a value computed from them inside the decision (R13i)."),
     note=("Known finding F24 (recorded, not repaired): the second premise fails literally for the letters B, Z and X, which are not "
           "in the protein model (replay: findings/F24). Assumes C-locale isalpha."),
     technique="effect summary (read set), constant evaluation of the letter models, finite evaluation of the voting filter, who-may-write",
-    design_ref="DESIGN.md section 3, C13 (R13a-R13h)")
+    design_ref="DESIGN.md section 3, C13 (R13a-R13i)")
 
 CLAIMS["C14"] = dict(
     text=("Decides non-interference of case and T/U spelling: among everything kalign_run runs before finalise_alignment "
@@ -217,11 +220,13 @@ CLAIMS["C16"] = dict(
           "num_profiles changes only together with the arrays it counts, so no stale heap is read; objects acquired into locals "
           "by the API functions and their helpers are released or handed over on every CFG path to every exit (failure exits "
           "for the functions that own on failure; input-caused failure edges only); nothing reachable from any API function "
-          "reads a clock, a random source, or pointer values as data."),
+          "reads a clock, a random source, or pointer values as data; an owning local is not overwritten while live (R16g), errno is "
+          "read only under a test of a call result (R16h), writing an msa does not change it (R16i = R06i), and no local pointer is "
+          "released twice on a path without an assignment in between (R16j)."),
     note=("Does not decide allocator state / fragmentation effects; libgomp's thread pool is excluded by the statement. "
           "Failure edges that only an allocation failure or an argument precondition can take are outside the fault model."),
     technique="global/static write enumeration, constructor completeness, CFG typestate (acquire/release/hand-over), call-graph reachability",
-    design_ref="DESIGN.md section 3, C16 (R16a-R16f)")
+    design_ref="DESIGN.md section 3, C16 (R16a-R16j)")
 
 CLAIMS["C17"] = dict(
     text=("Decides two structural clauses: both alignments are sorted by the same (name, checksum) order before pairing, and "
